@@ -147,7 +147,10 @@ def run(ctx):
     ljob = lambda: rt.laws(ctx, "DebVersion", "DebVersion_mc.cfg", env={"VERIF_MAXLEN": "2"}, min_states=n_strings(2),
                            timeout=ctx.pick(2400, 7200), workers=2)
     vjobs = [val(i, p) for i, p in enumerate(chunks)]
-    res = rt.parallel([ljob] + vjobs + tjobs, par)
+    # the two overlay test binaries of the consumers are linked while TLC runs (one thread, sequentially)
+    res = rt.parallel([lambda: _consumer_bins(ctx), ljob] + vjobs + tjobs, par + 1)
+    cbins = res[0]
+    res = res[1:]
     mc = res[0]
     vres = res[1:1 + len(vjobs)]
     tres = res[1 + len(vjobs):]
@@ -258,7 +261,7 @@ def run(ctx):
     ctx.log("I->T: %d random observations validated by TLC, %d in-scope differences, %d outside scope" % (checked, rand_bad, rand_out))
 
     # ---- consumers: sign convention
-    cons = _consumers(ctx, violations)
+    cons = _consumers(ctx, violations, cbins)
 
     samples = []
     for o in list(obs.values())[:4]:
@@ -328,7 +331,16 @@ CONSUMER_PAIRS = [  # (our/current version, other version, Debian order)
     ("2.63+git100.abc~ubuntu16.04", "2.63+git99.abc~ubuntu16.04", 1), ("1:2.63", "2.63", 2), ("2.63", "1:2.62", 2)]
 
 
-def _consumers(ctx, violations):
+def _consumer_bins(ctx):
+    if os.environ.get("VERIF_SKIP_OVERLAY"):
+        return None
+    tool = os.path.join(common.HARNESS, "overlay", "snapdtool", "zz_verif_c33_test.go")
+    snapst = os.path.join(common.HARNESS, "overlay", "snapstate", "zz_verif_reftables_test.go")
+    return (goharness.overlay_test_build(ctx, "snapdtool", [tool]),
+            goharness.overlay_test_build(ctx, "overlord/snapstate", [snapst]))
+
+
+def _consumers(ctx, violations, cbins):
     """Sign convention of the two consumers on fixed pairs (overlay drivers, in-package).
     systemSnapSupportsReExec(Version=a, snap's version=b) must be true iff a <= b (and false on error);
     a pending snapd refresh from a to b is an exclusive 'downgrade' iff a > b (error => the check fails)."""
@@ -343,13 +355,11 @@ def _consumers(ctx, violations):
         json.dump([{"a": a, "b": b} for a, b, _ in CONSUMER_PAIRS], f)
     # (the hard-coded orders are validated against DebVersion!Ref by TLC: cases -1..-k of observation chunk 0)
     ref = {(a, b): r for a, b, r in CONSUMER_PAIRS}
-    tool = os.path.join(common.HARNESS, "overlay", "snapdtool", "zz_verif_c33_test.go")
-    b = goharness.overlay_test_build(ctx, "snapdtool", [tool])
+    b = cbins[0]
     rows = rt.drive(ctx, b, "TestVerifC33ReExec", os.path.join(d, "snapdtool.ndjson"), env={"VERIF_PAIRS": spec},
                     cwd=os.path.join(common.REPO, "snapdtool"))
     _consumer_rows(ctx, rows, violations, out, "systemSnapSupportsReExec", lambda r: ref[r] in (-1, 0), ref)
-    snapst = os.path.join(common.HARNESS, "overlay", "snapstate", "zz_verif_reftables_test.go")
-    b = goharness.overlay_test_build(ctx, "overlord/snapstate", [snapst])
+    b = cbins[1]
     rows = rt.drive(ctx, b, "TestVerifC33Downgrade", os.path.join(d, "snapstate.ndjson"), env={"VERIF_PAIRS": spec},
                     cwd=os.path.join(common.REPO, "overlord/snapstate"), timeout=900)
     _consumer_rows(ctx, rows, violations, out, "changeIsSnapdDowngrade", lambda r: ref[r] == 1, ref)
